@@ -745,6 +745,15 @@ pub fn run_scenario(r: &mut Rng, ring: &KeyRing, f: Focus) -> Option<Outcome> {
         let addr = if s.p(2) { ring.byron[s.r.usize(ring.byron.len())].addr.to_address() } else { s.key_address(k) };
         let mut v = s.gen_val(with_assets);
         let mut out = TransactionOutput::new(&addr, &val_to_csl(&v));
+        // now and then the caller spells an ADA-only amount with a bundle that lists a policy with nothing under
+        // it: the same amount, and what the transaction carries is the bare coin
+        let hollow = v.assets.is_empty() && s.p(1);
+        if hollow {
+            let mut ma = MultiAsset::new();
+            ma.insert(&ScriptHash::from_bytes(vec![0xE1; 28]).unwrap(), &Assets::new());
+            out = TransactionOutput::new(&addr, &Value::new_with_assets(&BigNum::from(v.coin as u64), &ma));
+            s.log.push("(the next output's amount lists a policy with no asset under it)".into());
+        }
         if s.p(2) {
             out.set_data_hash(&hash_plutus_data(&PlutusData::new_bytes(vec![1, 2, 3])));
         } else if s.p(2) {
@@ -758,7 +767,13 @@ pub fn run_scenario(r: &mut Rng, ring: &KeyRing, f: Focus) -> Option<Outcome> {
             let min: u64 = min.into();
             if (v.coin as u64) < min && !s.p(1) {
                 v.coin = (min + s.r.below(3)) as i128;
-                let mut o2 = TransactionOutput::new(&addr, &val_to_csl(&v));
+                let mut o2 = if hollow {
+                    let mut vv = out.amount();
+                    vv.set_coin(&BigNum::from(v.coin as u64));
+                    TransactionOutput::new(&addr, &vv)
+                } else {
+                    TransactionOutput::new(&addr, &val_to_csl(&v))
+                };
                 if let Some(d) = out.data_hash() {
                     o2.set_data_hash(&d);
                 }
@@ -981,11 +996,19 @@ pub fn run_scenario(r: &mut Rng, ring: &KeyRing, f: Focus) -> Option<Outcome> {
             };
             let coin = BigNum::from(*s.r.pick(&[2_000_000u64, 0, 1, 500_000_000, 65_536]));
             let pool = ring.keys[s.key_ix()].hash.clone();
-            let drep = match s.r.below(4) {
+            // (a script DRep is the delegation's TARGET: it never witnesses the certificate; when it is a Plutus
+            // script, a caller whose plain `add` is refused would supply exactly that script)
+            let mut drep_script: Option<usize> = None;
+            let drep = match s.r.below(5) {
                 0 => DRep::new_always_abstain(),
                 1 => DRep::new_always_no_confidence(),
                 2 => DRep::new_key_hash(&ring.keys[s.r.usize(ring.keys.len())].hash),
-                _ => DRep::new_script_hash(&ring.natives[1].hash()),
+                3 => DRep::new_script_hash(&ring.natives[1].hash()),
+                _ => {
+                    let j = s.r.usize(ring.plutus.len());
+                    drep_script = Some(j);
+                    DRep::new_script_hash(&ring.plutus[j].hash())
+                }
             };
             let anchor = Anchor::new(&URL::new("https://x.y".into()).unwrap(), &AnchorDataHash::from_bytes(vec![3; 32]).unwrap());
             let mut hot_script: Option<usize> = None;
@@ -1034,6 +1057,9 @@ pub fn run_scenario(r: &mut Rng, ring: &KeyRing, f: Focus) -> Option<Outcome> {
                 17 => Certificate::new_drep_deregistration(&DRepDeregistration::new(&cred, &coin)),
                 _ => Certificate::new_drep_update(&DRepUpdate::new(&cred)),
             };
+            if hot_script.is_none() && matches!(kind, 9 | 10 | 12 | 13) {
+                hot_script = drep_script;
+            }
             let cert_bytes = cert.to_bytes();
             let res = match (nat_ix, pl_ix) {
                 (Some(i), _) => {
